@@ -48,7 +48,12 @@ MANIFEST = {
             'every block kind and at top level is accepted iff it is a '
             'continuation that block takes; every attribute of any tag '
             'offered to every tag is accepted iff the tag documents it, '
-            'whatever was compiled before (accepting tags first / last).',
+            'whatever was compiled before (accepting tags first / last); '
+            '50 expression texts (parser errors, errors of later compiler '
+            'passes, NUL byte, statements, valid ones) in 20 tag positions '
+            'of three syntaxes are rejected iff Python rejects the '
+            'expression, with a located ParseError (SyntaxError only for '
+            'explicit expr=).',
     'note': 'Trusted: the construction of the grammar-violation table (each '
             'entry violates exactly one stated rule); CPU budget 4 s per '
             'compile (normal: < 1 ms).  Nesting deeper than the Python '
